@@ -759,7 +759,7 @@ func (fx *fixture) judge(c *vcase, o *observed, names []string) []verdict {
 			}
 			sum := sha1.Sum(data.Bytes())
 			if rep.Read != data.Len() || rep.Sum != hex.EncodeToString(sum[:]) || rep.IsMax != (c.Read.Err == "max") {
-				add("body-untouched", "", fmt.Sprintf("the innermost handler read %d bytes (sha1 %s, too-large error %v); the request carried %d bytes of which it must get %d (sha1 %s, too-large error %v)",
+				add("body-untouched", "", fmt.Sprintf("the handler at the end of the chain read %d bytes (sha1 %s, too-large error %v); the request carried %d bytes of which it must get %d (sha1 %s, too-large error %v)",
 					rep.Read, rep.Sum, rep.IsMax, o.w.clen, data.Len(), hex.EncodeToString(sum[:]), c.Read.Err == "max"),
 					fmt.Sprintf("%d bytes", data.Len()), fmt.Sprintf("%d bytes", rep.Read))
 			}
